@@ -10,7 +10,7 @@ ID = 'C03'
 LEVEL = 'exploration'
 RULE = ('cases = hostile mix biased to multi-line tokens (triple-quoted / continued strings, f-strings over '
         'continuation lines), \\r-only and mixed newlines, non-Python separators (\\f \\v FS GS RS NEL U+2028/9), BOM; '
-        'whole files; versions cycled; judged by a contract on Grammar.parse that walks the text through every leaf '
+        'whole files; trees produced by the incremental parser after 1-4 edits (lone-CR newlines over-represented); versions cycled; judged by a contract on Grammar.parse that walks the text through every leaf '
         "(start_pos, end_pos, get_start_pos_of_prefix), node start/end, module.end_pos and line count. "
         'non-trivial = distinct input with a multi-line leaf, a lone \\r, a non-Python separator, a BOM or a '
         'zero-width indentation error leaf')
@@ -72,9 +72,52 @@ def _gen(rng, files):
     return s
 
 
+def _incremental(ctx, rng, files):
+    """positions of trees that come out of the incremental (diff_cache) parser: same contract, different producer"""
+    import parso
+    from parso.cache import parser_cache
+    from parso.utils import split_lines
+    v = rng.choice(harness.VERSIONS)
+    g = parso.load_grammar(version=v)
+    base = G.structured_program(rng) if rng.random() < .5 else G.corpus_slice(rng, files, maxlines=40, inject=(0, 1))
+    nl = rng.choice(['\n', '\n', '\r', '\r', '\r\n'])
+    cur = G.split_keep(base.replace('\r\n', '\n').replace('\n', nl))
+    path = '/virt/c03/%d.py' % rng.getrandbits(40)
+    try:
+        g.parse(''.join(cur), diff_cache=True, path=path)
+        for _ in range(rng.randint(1, 4)):
+            cur = G.mutate_lines(cur, rng)
+            if rng.random() < .3 and cur:
+                cur[-1] = cur[-1].rstrip('\r\n') + rng.choice(['', '    ', ' \\', '(', ' ,'])
+            text = ''.join(cur)
+            _state['version'] = v
+            m = g.parse(text, diff_cache=True, path=path)
+            ctx.count('incremental_trees')
+            viol, info = treechecks.check_positions(m, text, split_lines)
+            for kind, msg in viol:
+                ctx.violation(kind, 'incremental tree: ' + msg, {'version': v, 'code': text, 'history_last': ''.join(cur)}, incremental=True)
+            if viol:
+                break
+    except RecursionError:
+        pass
+    except Exception:
+        ctx.count('diff_parser_raised_not_judged_here')
+    finally:
+        parser_cache.pop(g._hashed, None)
+
+
 def run_shard(spec, ctx):
     import parso
     _install(ctx)
+    if spec['kind'] == 'incremental':
+        rng = random.Random(spec['seed'])
+        files = G.corpus_files()
+        for i in range(spec['n']):
+            if ctx.out_of_time():
+                break
+            ctx.count('evaluations')
+            _incremental(ctx, rng, files)
+        return
     if spec['kind'] == 'suite':
         return _text.run_repo_suite(ID, ctx)
     it = _text.whole_files(spec, ctx) if spec['kind'] == 'files' else _text.cases(spec, ctx, gen=_gen)
@@ -102,13 +145,14 @@ def shards(tier, seed):
     nf = 16
     s += [{'kind': 'files', 'shard': i, 'nshards': nf, 'file_stride': 12 if tier == 'quick' else 1,
            'budget_s': 60 if tier == 'quick' else 900} for i in range(nf)]
+    s += [{'kind': 'incremental', 'n': 1500 if tier == 'quick' else 60000, 'budget_s': 60 if tier == 'quick' else 900} for _ in range(4)]
     if tier == 'thorough':
         s.append({'kind': 'suite'})
     return s
 
 
 def floors(tier):
-    return {'evaluations': 5000, 'leaves_multiline': 500, 'leaves_virtual': 300}
+    return {'evaluations': 5000, 'leaves_multiline': 500, 'leaves_virtual': 300, 'incremental_trees': 3000}
 
 
 def _ver(args):
